@@ -37,8 +37,81 @@ type inlineSite struct {
 	file   *ast.File
 	pkg    *packages.Package
 	call   *ast.CallExpr
-	callee *ast.FuncDecl
-	fn     *types.Func
+	callee *calleeDecl
+	fn     types.Object // *types.Func, or the *types.Var holding a local closure
+}
+
+// calleeDecl is what gets expanded: a declared function or a local closure `name := func(…){…}`.
+type calleeDecl struct {
+	Name *ast.Ident
+	Type *ast.FuncType
+	Body *ast.BlockStmt
+	Recv *ast.FieldList
+	Lit  *ast.FuncLit
+	Sig  *types.Signature
+}
+
+func (c *calleeDecl) Pos() token.Pos { return c.Body.Pos() }
+
+// localClosures finds `name := func(…) {…}` in fd where name is never reassigned and is only ever
+// called directly (not passed on, not deferred, not started as a goroutine).
+func localClosures(p *packages.Package, fd *ast.FuncDecl) map[types.Object]*calleeDecl {
+	out := map[types.Object]*calleeDecl{}
+	ast.Inspect(fd.Body, func(n ast.Node) bool {
+		as, ok := n.(*ast.AssignStmt)
+		if !ok || as.Tok != token.DEFINE || len(as.Lhs) != 1 || len(as.Rhs) != 1 {
+			return true
+		}
+		lit, ok := as.Rhs[0].(*ast.FuncLit)
+		id, ok2 := as.Lhs[0].(*ast.Ident)
+		if !ok || !ok2 || id.Name == "_" {
+			return true
+		}
+		obj := p.TypesInfo.Defs[id]
+		if obj == nil {
+			return true
+		}
+		sig, _ := obj.Type().(*types.Signature)
+		if sig == nil {
+			return true
+		}
+		out[obj] = &calleeDecl{Name: id, Type: lit.Type, Body: lit.Body, Lit: lit, Sig: sig}
+		return true
+	})
+	if len(out) == 0 {
+		return out
+	}
+	// every use must be the function position of a plain call statement/expression
+	callFun := map[*ast.Ident]bool{}
+	ast.Inspect(fd.Body, func(n ast.Node) bool {
+		switch x := n.(type) {
+		case *ast.CallExpr:
+			if id, ok := x.Fun.(*ast.Ident); ok {
+				callFun[id] = true
+			}
+		case *ast.GoStmt:
+			if id, ok := x.Call.Fun.(*ast.Ident); ok {
+				delete(out, p.TypesInfo.Uses[id])
+			}
+		case *ast.DeferStmt:
+			if id, ok := x.Call.Fun.(*ast.Ident); ok {
+				delete(out, p.TypesInfo.Uses[id])
+			}
+		}
+		return true
+	})
+	ast.Inspect(fd.Body, func(n ast.Node) bool {
+		id, ok := n.(*ast.Ident)
+		if !ok {
+			return true
+		}
+		if obj := p.TypesInfo.Uses[id]; obj != nil && out[obj] != nil && !callFun[id] {
+			delete(out, obj)
+		}
+		return true
+	})
+	// a closure that calls itself or whose body uses go/defer is left alone by expand
+	return out
 }
 
 type edit struct {
@@ -51,14 +124,15 @@ type edit struct {
 func Reinline(pkgs []*packages.Package, isNew func(*types.Func) bool, read func(string) ([]byte, error)) (map[string][]byte, []string) {
 	overlay := map[string][]byte{}
 	var notes []string
-	decls := map[*types.Func]*ast.FuncDecl{}
+	decls := map[*types.Func]*calleeDecl{}
 	declPkg := map[*types.Func]*packages.Package{}
 	for _, p := range pkgs {
 		for _, f := range p.Syntax {
 			for _, d := range f.Decls {
 				if fd, ok := d.(*ast.FuncDecl); ok && fd.Body != nil {
 					if obj, ok := p.TypesInfo.Defs[fd.Name].(*types.Func); ok {
-						decls[obj] = fd
+						sig, _ := obj.Type().(*types.Signature)
+						decls[obj] = &calleeDecl{Name: fd.Name, Type: fd.Type, Body: fd.Body, Recv: fd.Recv, Sig: sig}
 						declPkg[obj] = p
 					}
 				}
@@ -77,6 +151,36 @@ func Reinline(pkgs []*packages.Package, isNew func(*types.Func) bool, read func(
 			var addImports [][2]string
 			// collect call sites (outermost first; nested ones are handled by the next round)
 			var sites []inlineSite
+			closureUses := map[types.Object]int{}
+			closureDone := map[types.Object]int{}
+			closureDecl := map[types.Object]*calleeDecl{}
+			for _, d := range f.Decls {
+				fd, ok := d.(*ast.FuncDecl)
+				if !ok || fd.Body == nil {
+					continue
+				}
+				cl := localClosures(p, fd)
+				if len(cl) == 0 {
+					continue
+				}
+				ast.Inspect(fd.Body, func(n ast.Node) bool {
+					call, ok := n.(*ast.CallExpr)
+					if !ok {
+						return true
+					}
+					if id, ok := call.Fun.(*ast.Ident); ok {
+						if obj := p.TypesInfo.Uses[id]; obj != nil && cl[obj] != nil {
+							// not a call from inside the closure itself
+							if !(cl[obj].Lit.Pos() <= call.Pos() && call.End() <= cl[obj].Lit.End()) {
+								sites = append(sites, inlineSite{f, p, call, cl[obj], obj})
+								closureUses[obj]++
+								closureDecl[obj] = cl[obj]
+							}
+						}
+					}
+					return true
+				})
+			}
 			ast.Inspect(f, func(n ast.Node) bool {
 				call, ok := n.(*ast.CallExpr)
 				if !ok {
@@ -109,6 +213,9 @@ func Reinline(pkgs []*packages.Package, isNew func(*types.Func) bool, read func(
 						continue
 					}
 				}
+				if encl == nil {
+					continue
+				}
 				counter++
 				ed, imps, note := expand(p, f, src, s, counter, read)
 				if ed == nil {
@@ -127,7 +234,19 @@ func Reinline(pkgs []*packages.Package, isNew func(*types.Func) bool, read func(
 				used = append(used, *ed)
 				edits = append(edits, *ed)
 				addImports = append(addImports, imps...)
-				notes = append(notes, fmt.Sprintf("new helper %s expanded at its call in %s (%s)", s.fn.Name(), encl.Name.Name, shortPos(p.Fset.Position(s.call.Pos()))))
+				if _, isVar := s.fn.(*types.Var); isVar {
+					closureDone[s.fn]++
+					notes = append(notes, fmt.Sprintf("local closure %s expanded at its call in %s (%s)", s.fn.Name(), encl.Name.Name, shortPos(p.Fset.Position(s.call.Pos()))))
+				} else {
+					notes = append(notes, fmt.Sprintf("new helper %s expanded at its call in %s (%s)", s.fn.Name(), encl.Name.Name, shortPos(p.Fset.Position(s.call.Pos()))))
+				}
+			}
+			// a closure all of whose calls were expanded is no longer used: keep it compiling
+			for obj, n := range closureUses {
+				if closureDone[obj] == n {
+					end := p.Fset.Position(closureDecl[obj].Lit.End()).Offset
+					edits = append(edits, edit{end, end, "; _ = " + obj.Name()})
+				}
 			}
 			if len(edits) == 0 {
 				continue
@@ -215,7 +334,10 @@ func expand(p *packages.Package, f *ast.File, src []byte, s inlineSite, n int, r
 	off := func(pos token.Pos) int { return fset.Position(pos).Offset }
 	text := func(a, b token.Pos) string { return string(src[off(a):off(b)]) }
 	callee := s.callee
-	sig := s.fn.Type().(*types.Signature)
+	sig := callee.Sig
+	if sig == nil {
+		return nil, nil, "no signature"
+	}
 	if sig.Variadic() {
 		return nil, nil, "variadic"
 	}
@@ -239,9 +361,14 @@ func expand(p *packages.Package, f *ast.File, src []byte, s inlineSite, n int, r
 			if id, ok := x.Fun.(*ast.Ident); ok && id.Name == "recover" {
 				bad = "recover in helper"
 			}
-			if id, ok := x.Fun.(*ast.Ident); ok && p.TypesInfo.Uses[id] == types.Object(s.fn) {
+			if id, ok := x.Fun.(*ast.Ident); ok && p.TypesInfo.Uses[id] == s.fn {
 				bad = "recursive helper"
 			}
+			if sel, ok := x.Fun.(*ast.SelectorExpr); ok && p.TypesInfo.Uses[sel.Sel] == s.fn {
+				bad = "recursive helper"
+			}
+		case *ast.GoStmt:
+			bad = "go statement in helper"
 		case *ast.ReturnStmt:
 			returns = append(returns, x)
 		case *ast.LabeledStmt:
@@ -425,9 +552,16 @@ func expand(p *packages.Package, f *ast.File, src []byte, s inlineSite, n int, r
 	var imps [][2]string
 	scope := p.Types.Scope().Innermost(s.call.Pos())
 	captured := ""
+	selIdents := map[*ast.Ident]bool{}
+	ast.Inspect(callee.Body, func(nn ast.Node) bool {
+		if se, ok := nn.(*ast.SelectorExpr); ok {
+			selIdents[se.Sel] = true
+		}
+		return true
+	})
 	ast.Inspect(callee.Body, func(nn ast.Node) bool {
 		id, ok := nn.(*ast.Ident)
-		if !ok {
+		if !ok || selIdents[id] {
 			return true
 		}
 		obj := p.TypesInfo.Uses[id]
@@ -456,10 +590,18 @@ func expand(p *packages.Package, f *ast.File, src []byte, s inlineSite, n int, r
 			}
 			return true
 		}
-		if obj.Parent() == p.Types.Scope() || obj.Parent() == types.Universe {
+		declStart := callee.Type.Pos()
+		if callee.Recv != nil {
+			declStart = callee.Recv.Pos()
+		}
+		if callee.Lit != nil {
+			declStart = callee.Lit.Pos()
+		}
+		inside := obj.Pos().IsValid() && declStart <= obj.Pos() && obj.Pos() <= callee.Body.End()
+		if obj.Parent() != nil && !inside {
 			if scope != nil {
-				if _, o2 := scope.LookupParent(id.Name, s.call.Pos()); o2 != nil && o2 != obj {
-					captured = "name " + id.Name + " is shadowed at the call site"
+				if _, o2 := scope.LookupParent(id.Name, s.call.Pos()); o2 != obj {
+					captured = "name " + id.Name + " means something else at the call site"
 				}
 			}
 		}
@@ -629,7 +771,7 @@ func substExpr(p *packages.Package, f *ast.File, src, csrc []byte, s inlineSite,
 	fset := p.Fset
 	off := func(pos token.Pos) int { return fset.Position(pos).Offset }
 	argText := map[types.Object]string{}
-	sig := s.fn.Type().(*types.Signature)
+	sig := s.callee.Sig
 	if s.callee.Recv != nil && len(s.callee.Recv.List) == 1 {
 		sel, ok := s.call.Fun.(*ast.SelectorExpr)
 		if !ok {
@@ -719,4 +861,121 @@ func substExpr(p *packages.Package, f *ast.File, src, csrc []byte, s inlineSite,
 		out = out[:r.a-base] + r.t + out[r.b-base:]
 	}
 	return out, imps, true
+}
+
+// NormaliseSwitches rewrites every tagless `switch { case c: … }` of the given packages into the
+// equivalent if / else-if chain (line-preserving). go/ssa lowers a case condition `a && b` of a
+// tagless switch to a boolean phi instead of branches, which hides the individual tests from the
+// guard rules; the if-chain form is lowered to branches. Switches with fallthrough, with a break
+// that targets the switch, or with a default clause that is not last are left alone.
+func NormaliseSwitches(pkgs []*packages.Package, read func(string) ([]byte, error)) (map[string][]byte, []string) {
+	overlay := map[string][]byte{}
+	var notes []string
+	for _, p := range pkgs {
+		for _, f := range p.Syntax {
+			fname := p.Fset.Position(f.Pos()).Filename
+			var src []byte
+			var edits []edit
+			off := func(pos token.Pos) int { return p.Fset.Position(pos).Offset }
+			ast.Inspect(f, func(n ast.Node) bool {
+				sw, ok := n.(*ast.SwitchStmt)
+				if !ok || sw.Tag != nil || len(sw.Body.List) == 0 {
+					return true
+				}
+				okSw := true
+				for i, c := range sw.Body.List {
+					cc := c.(*ast.CaseClause)
+					if cc.List == nil && i != len(sw.Body.List)-1 {
+						okSw = false
+					}
+					for _, st := range cc.Body {
+						if breaksOut(st) {
+							okSw = false
+						}
+					}
+				}
+				if !okSw {
+					return true
+				}
+				if src == nil {
+					b, err := read(fname)
+					if err != nil {
+						return false
+					}
+					src = b
+				}
+				// header: from "switch" to the opening brace
+				head := "if false {"
+				if sw.Init != nil {
+					head = "{ " + string(src[off(sw.Init.Pos()):off(sw.Init.End())]) + "; if false {"
+				}
+				edits = append(edits, edit{off(sw.Pos()), off(sw.Body.Lbrace) + 1, head})
+				for _, c := range sw.Body.List {
+					cc := c.(*ast.CaseClause)
+					var t string
+					if cc.List == nil {
+						t = "} else {"
+					} else {
+						var cs []string
+						for _, e := range cc.List {
+							cs = append(cs, "("+string(src[off(e.Pos()):off(e.End())])+")")
+						}
+						t = "} else if " + strings.Join(cs, " || ") + " {"
+					}
+					edits = append(edits, edit{off(cc.Pos()), off(cc.Colon) + 1, t})
+				}
+				tail := "}"
+				if sw.Init != nil {
+					tail = "}}"
+				}
+				edits = append(edits, edit{off(sw.Body.Rbrace), off(sw.Body.Rbrace) + 1, tail})
+				notes = append(notes, "tagless switch at "+shortPos(p.Fset.Position(sw.Pos()))+" analysed as an if / else-if chain")
+				return true
+			})
+			if len(edits) == 0 {
+				continue
+			}
+			sort.Slice(edits, func(i, j int) bool { return edits[i].start > edits[j].start })
+			out := append([]byte{}, src...)
+			for _, e := range edits {
+				out = append(out[:e.start], append([]byte(e.text), out[e.end:]...)...)
+			}
+			overlay[fname] = out
+		}
+	}
+	return overlay, notes
+}
+
+// breaksOut: st contains a break (unlabelled, not inside a nested for/switch/select) or a
+// fallthrough.
+func breaksOut(st ast.Stmt) bool {
+	found := false
+	var visit func(n ast.Node, depth int)
+	visit = func(n ast.Node, depth int) {
+		ast.Inspect(n, func(x ast.Node) bool {
+			if x == nil || found {
+				return false
+			}
+			switch y := x.(type) {
+			case *ast.BranchStmt:
+				if y.Tok == token.FALLTHROUGH {
+					found = true
+				}
+				if y.Tok == token.BREAK && y.Label == nil {
+					found = true
+				}
+			case *ast.ForStmt, *ast.RangeStmt, *ast.SwitchStmt, *ast.TypeSwitchStmt, *ast.SelectStmt:
+				if x != n {
+					// a break inside belongs to the nested statement; a fallthrough cannot occur there
+					// for the outer switch
+					return false
+				}
+			case *ast.FuncLit:
+				return false
+			}
+			return true
+		})
+	}
+	visit(st, 0)
+	return found
 }
